@@ -182,6 +182,10 @@ static ex::thread_pool_scheduler sched_of(int uid)
     if (t.prio == 'h') s = ex::with_priority(s, thread_priority::high);
     else if (t.prio == 'l') s = ex::with_priority(s, thread_priority::low);
     if (t.hinted) s = ex::with_hint(s, thread_schedule_hint(std::int16_t(t.hint)));
+    // stack size and annotation must not influence placement
+    if (uid % 5 == 1) s = ex::with_stacksize(s, pika::execution::thread_stacksize::large);
+    else if (uid % 5 == 2) s = ex::with_stacksize(s, pika::execution::thread_stacksize::medium);
+    if (uid % 7 == 3) s = ex::with_annotation(s, "c10-annotated");
     return s;
 }
 
